@@ -54,6 +54,7 @@ theorem ordered_steps (lt : L → L → Prop) {n : Nat} {s s' : State L}
   | refl => exact inv
   | tail _ hs ih => exact ordered_step lt (ih inv) hs
 
+omit [DecidableEq L] in
 theorem sum_map_set (f : Thread L → Nat) :
     ∀ (s : State L) (i : Nat) (t x : Thread L), s[i]? = some t →
       ((s.set i x).map f).sum + f t = (s.map f).sum + f x := by
